@@ -77,6 +77,73 @@ def gen_lean():
     sa_read = sorted(set(re.findall(r"content\[\"(\w+)\"\]", mdes.group(1))))
     if len(annots) != len(kinds) or not sa_written or not sa_read:
         raise ValueError("could not extract the encoding serialisation tables")
+    # ---- compress.py: the candidate space of _find_best_integer_compression, the type ladders of _to_smallest_integer_type,
+    # the guards of _get_decimal_places (Python ast, not regex)
+    import ast
+    csrc = open(os.path.join(paths.SRC, "biotite/structure/io/pdbx/compress.py")).read()
+    ctree = ast.parse(csrc)
+    funcs = {n.name: n for n in ast.walk(ctree) if isinstance(n, ast.FunctionDef)}
+
+    def lit(node):
+        return ast.literal_eval(node)
+
+    fb = funcs["_find_best_integer_compression"]
+    loops = {}
+    for n in ast.walk(fb):
+        if isinstance(n, ast.For) and isinstance(n.target, ast.Name):
+            loops[n.target.id] = lit(n.iter)
+    # encoding classes in the order in which a chain is extended (first instantiation in source order)
+    stage_order = []
+    for n in sorted((x for x in ast.walk(fb) if isinstance(x, ast.Call) and isinstance(x.func, ast.Name) and x.func.id.endswith("Encoding")),
+                    key=lambda x: (x.lineno, x.col_offset)):
+        if n.func.id not in stage_order:
+            stage_order.append(n.func.id)
+    # how a chain is extended: `<later> = <earlier> + [encoding]` — (target, source) pairs in source order
+    extends = []
+    for n in sorted((x for x in ast.walk(fb) if isinstance(x, ast.Assign)), key=lambda x: x.lineno):
+        v = n.value
+        if (isinstance(v, ast.BinOp) and isinstance(v.op, ast.Add) and isinstance(v.left, ast.Name) and isinstance(v.right, ast.List)
+                and len(n.targets) == 1 and isinstance(n.targets[0], ast.Name)):
+            extends.append((n.targets[0].id, v.left.id))
+    ts = funcs["_to_smallest_integer_type"]
+    ladders = []
+    for n in sorted((x for x in ast.walk(ts) if isinstance(x, ast.For)), key=lambda x: x.lineno):
+        if isinstance(n.iter, ast.List):
+            # numpy type names in the model's spelling: uint8 -> u8, int64 -> i64
+            ladders.append([e.attr.replace("uint", "u").replace("int", "i") for e in n.iter.elts if isinstance(e, ast.Attribute)])
+    gd = funcs["_get_decimal_places"]
+    dec_guards = [lit(c.comparators[0]) for c in ast.walk(gd)
+                  if isinstance(c, ast.Compare) and isinstance(c.left, ast.Name) and c.left.id == "decimals" and isinstance(c.ops[0], ast.Gt)]
+    cd = funcs["_compress_data"]
+    single = [lit(c.comparators[0]) for c in ast.walk(cd)
+              if isinstance(c, ast.Compare) and isinstance(c.left, ast.Call) and getattr(c.left.func, "id", "") == "len" and isinstance(c.ops[0], ast.Eq)]
+    if set(loops) != {"use_delta", "use_run_length", "packed_byte_count"} or len(ladders) != 2 or len(dec_guards) != 1 or len(single) != 1:
+        raise ValueError(f"compress.py no longer has the shape the translator reads: loops={loops} ladders={ladders} guards={dec_guards} single={single}")
+
+    def lbool(xs):
+        return "[" + ", ".join("true" if x else "false" for x in xs) + "]"
+
+    def lopt(xs):
+        return "[" + ", ".join("none" if x is None else f"some {int(x)}" for x in xs) + "]"
+
+    def lstr(xs):
+        return "[" + ", ".join(f'"{x}"' for x in xs) + "]"
+
+    compress_lines = [
+        "/-- `_find_best_integer_compression`: the three loop domains, the encoding classes in the order a chain is extended, and the",
+        "`later = earlier + [encoding]` steps (regenerated from compress.py with `ast`). -/",
+        "def deltaDomain : List Bool := " + lbool(loops["use_delta"]),
+        "def rleDomain : List Bool := " + lbool(loops["use_run_length"]),
+        "def packDomain : List (Option Nat) := " + lopt(loops["packed_byte_count"]),
+        "def stageOrder : List String := " + lstr(stage_order),
+        "def chainExtends : List (String × String) := [" + ", ".join(f'("{a}", "{b}")' for a, b in extends) + "]",
+        "/-- `_to_smallest_integer_type`: the unsigned and the signed type ladder, in the order tried. -/",
+        "def unsignedLadder : List String := " + lstr(ladders[0]),
+        "def signedLadder : List String := " + lstr(ladders[1]),
+        "/-- `_get_decimal_places`: `if decimals > N: return None`; `_compress_data`: `len(array) == N` takes the uncompressed path. -/",
+        f"def maxDecimals : Int := {int(dec_guards[0])}",
+        f"def singleValueLength : Nat := {int(single[0])}",
+    ]
     body = ["/- REGENERATED on every run by harness/props/c05.py from structure/io/pdbx/encoding.pyx. Do not edit. -/",
             "namespace BiotiteModel.Gen.C05",
             "/-- `TypeCode` members: (name, code). -/",
@@ -93,7 +160,7 @@ def gen_lean():
             "/-- keys `StringArrayEncoding.serialize` writes / `StringArrayEncoding.deserialize` reads (it does not use the name maps). -/",
             "def stringArrayWritten : List String := [" + ", ".join(f'"{k}"' for k in sa_written) + "]",
             "def stringArrayRead : List String := [" + ", ".join(f'"{k}"' for k in sa_read) + "]",
-            "end BiotiteModel.Gen.C05", ""]
+            ] + compress_lines + ["end BiotiteModel.Gen.C05", ""]
     return {"BiotiteModel/Gen/C05.lean": "\n".join(body)}
 
 
